@@ -125,6 +125,27 @@ def main():
                         e1 = float(np.abs(r_ml.ravel() - fn(R[:4], Z[:4])).max())
                     except Exception:
                         e1 = float("nan")
+                # every subset of staggered locations that the grid generator or a user may set: the
+                # result carries exactly the locations of the argument, each equal to the array call
+                if not np.isnan(e1) and m == "spline":
+                    shapes = {"centre": (2, 2), "xlow": (3, 2), "ylow": (2, 3), "corners": (3, 3)}
+                    for subset in (("centre", "ylow"), ("ylow",), ("ylow", "corners"), ("xlow", "corners"), ("centre", "xlow", "ylow", "corners")):
+                        a_R, a_Z = MultiLocationArray(2, 2), MultiLocationArray(2, 2)
+                        off = 0
+                        exp_ = {}
+                        for loc in subset:
+                            n_ = shapes[loc][0] * shapes[loc][1]
+                            setattr(a_R, loc, R[off : off + n_].reshape(shapes[loc]).copy())
+                            setattr(a_Z, loc, Z[off : off + n_].reshape(shapes[loc]).copy())
+                            exp_[loc] = fn(R[off : off + n_], Z[off : off + n_]).reshape(shapes[loc])
+                            off += n_
+                        try:
+                            got_ = fn(a_R, a_Z)
+                            es = max(float(np.abs(np.asarray(getattr(got_, loc)) - exp_[loc]).max()) for loc in subset)
+                        except Exception:  # noqa: BLE001
+                            es = float("nan")
+                        scl_ = float(np.abs(fn(R[:20], Z[:20])).max()) + 1e-300
+                        acc.add("multi-location-array argument with only some locations set: every set location = the array call", cls, es / scl_, 0.0, where=dict(where, function=nm, locations=list(subset)))
                 e2 = abs(float(fn(float(R[0]), float(Z[0]))) - float(fn(R[:1], Z[:1])[0]))
                 scl = float(np.abs(fn(R[:10], Z[:10])).max()) + 1e-300
                 acc.add("scalar / array / multi-location-array arguments agree", cls, (e1 + e2) / scl, 0.0 if m == "spline" else 1e-13, where=dict(where, function=nm), note="spline: bitwise; dct: summation order may differ by rounding")
